@@ -10,9 +10,13 @@ pub mod delim;
 pub mod cmsg;
 pub mod doubles;
 #[cfg(kani)]
+pub mod framed;
+#[cfg(kani)]
 pub mod c11;
 #[cfg(kani)]
 pub mod c12;
+#[cfg(all(kani, compio_rs_compio_verif))]
+pub mod c11buf;
 /// concrete-playback tests are written here by `./check --replay` (committed empty)
 #[cfg(kani)]
 mod playback_gen;
